@@ -12,5 +12,6 @@ INVARIANT NodesOk
 INVARIANT NoIdleLeftover
 INVARIANT BlockedReportSound
 INVARIANT SubmittedListConsistent
+INVARIANT ClosedFormAgrees
 PROPERTY Terminates
 CHECK_DEADLOCK FALSE
